@@ -16,6 +16,6 @@ func main() {
 	n := flag.Int("n", 320, "number of parse-level cases")
 	e := flag.Int("e2e", 96, "number of end-to-end cases")
 	flag.Parse()
-	conslog.RunAll(conslog.RunOpts{Out: *out, Seed: *seed, NParse: *n, NE2E: *e, Tag: "c03", RCProb: 10,
+	conslog.RunAll(conslog.RunOpts{Out: *out, Seed: *seed, NParse: *n, NE2E: *e, Tag: "c03", RCProb: 10, NPipe: 60,
 		Formats: []conslog.Format{conslog.FV0, conslog.FV1, conslog.FV1C, conslog.FV0C, conslog.FV2, conslog.FV2H, conslog.FCtrl, conslog.FMix}})
 }
